@@ -49,26 +49,37 @@ func init() {
 
 func init() {
 	props["C15"] = PropDef{Level: "exploration", QuickS: 45, ThoroughS: 600,
-		Units: []Unit{{Name: "capfile-hostile", Pkg: "./props/capfile", Sim: "c15", Share: 1}},
-		Rule: "one evaluation = one seeded input (a structurally valid pcap / pcapng / snoop file built field by field by the harness, little or big endian, with every header, block, option and record field a named mutation target; then 0-2 field corruptions from a boundary value set, or a random tail, or a truncation; optionally gzip-wrapped, bit-flipped or cut) read through the fault-free stream, two differently chunked streams and a stream that fails at a seeded offset (every offset for inputs up to 512 bytes in the thorough tier), with the copying or zero-copy call; oracles: no panic, no spin at EOF, allocation per call within 1 MiB + 4 x (bytes present + declared snap length), len(data)==CaptureLength<=Length, results independent of chunking, results before an injected error are a prefix of the fault-free results and the error surfaces; non-trivial = at least one corruption or stream fault fired; distinct = distinct event-log fingerprints among non-trivial runs",
+		Units:    []Unit{{Name: "capfile-hostile", Pkg: "./props/capfile", Sim: "c15", Share: 1}},
+		Rule:     "one evaluation = one seeded input (a structurally valid pcap / pcapng / snoop file built field by field by the harness, little or big endian, with every header, block, option and record field a named mutation target; then 0-2 field corruptions from a boundary value set, or a random tail, or a truncation; optionally gzip-wrapped, bit-flipped or cut) read through the fault-free stream, two differently chunked streams and a stream that fails at a seeded offset (every offset for inputs up to 512 bytes in the thorough tier), with the copying or zero-copy call; oracles: no panic, no spin at EOF, allocation per call within 1 MiB + 4 x (bytes present + declared snap length), len(data)==CaptureLength<=Length, results independent of chunking, results before an injected error are a prefix of the fault-free results and the error surfaces; non-trivial = at least one corruption or stream fault fired; distinct = distinct event-log fingerprints among non-trivial runs",
 		RealStub: "real: pcapgo.Reader, NgReader, SnoopReader, bufio, compress/gzip; stub: the byte stream (sim/disk.Stream)",
-		Assume: []string{"a corrupted declared snap length is capped at 1 MiB by the harness, because a declared snap length licenses an allocation of that size", "allocation is measured with runtime/metrics /gc/heap/allocs:bytes around each call in a single-goroutine child", "after a non-EOF error the harness keeps calling (up to 3 consecutive errors, 64 calls)"}}
+		Assume:   []string{"a corrupted declared snap length is capped at 1 MiB by the harness, because a declared snap length licenses an allocation of that size", "allocation is measured with runtime/metrics /gc/heap/allocs:bytes around each call in a single-goroutine child", "after a non-EOF error the harness keeps calling (up to 3 consecutive errors, 64 calls)"}}
 }
 
 func init() {
 	props["C16"] = PropDef{Level: "exploration", QuickS: 45, ThoroughS: 600,
-		Units: []Unit{{Name: "pktsrc", Pkg: "./props/pktsrc", Sim: "c16", Share: 1}},
-		Rule: "one evaluation = one run inside a testing/synctest bubble: a scripted data source (packets with capture info, timeouts, other transient errors, one of seven end-of-input errors, plain or wrapped; copying or buffer-reusing zero-copy), a consumer (pull or channel interface), a canceller and the clock are released one at a time by the tape-driven controller, which waits for the whole bubble (PacketSource's own goroutine included) to block durably after every step; non-trivial = a transient/terminal error or a cancellation fired; distinct = distinct event-log fingerprints among non-trivial runs",
+		Units:    []Unit{{Name: "pktsrc", Pkg: "./props/pktsrc", Sim: "c16", Share: 1}},
+		Rule:     "one evaluation = one run inside a testing/synctest bubble: a scripted data source (packets with capture info, timeouts, other transient errors, one of seven end-of-input errors, plain or wrapped; copying or buffer-reusing zero-copy), a consumer (pull or channel interface), a canceller and the clock are released one at a time by the tape-driven controller, which waits for the whole bubble (PacketSource's own goroutine included) to block durably after every step; non-trivial = a transient/terminal error or a cancellation fired; distinct = distinct event-log fingerprints among non-trivial runs",
 		RealStub: "real: gopacket.PacketSource (NextPacket, PacketsCtx, its background goroutine, channel, time.Sleep, context), NewPacket with DecodePayload; stub: data source, consumer, canceller; clock: synctest fake clock",
-		Assume: []string{"Go's select among ready cases is not owned: the one packet whose read was in progress at cancellation may or may not be delivered, both are accepted", "the 1000-slot channel is never filled (runs have at most 300 steps)"}}
+		Assume:   []string{"Go's select among ready cases is not owned: the one packet whose read was in progress at cancellation may or may not be delivered, both are accepted", "the 1000-slot channel is never filled (runs have at most 300 steps)"}}
 }
 
 func init() {
 	props["C20"] = PropDef{Level: "exploration", QuickS: 40, ThoroughS: 600,
-		Units: []Unit{{Name: "reader", Pkg: "./props/reader", Sim: "c20", Share: 1}},
-		Rule: "one evaluation = one run inside a testing/synctest bubble: an assembler-side actor delivers a seeded script (0-4 batches of 0-3 Reassembly elements with empty slices, skips, -1 skip, then completion, scribbling over each batch after its call returns) and a consumer actor reads with seeded buffer sizes (0,1,2,3,7,64,1500) and closes at a seeded point (before any read, between or inside batches, after EOF, twice); the controller picks which side moves; non-trivial = a gap, empty slice/batch or early close fired; distinct = distinct event-log fingerprints among non-trivial runs",
+		Units:    []Unit{{Name: "reader", Pkg: "./props/reader", Sim: "c20", Share: 1}},
+		Rule:     "one evaluation = one run inside a testing/synctest bubble: an assembler-side actor delivers a seeded script (0-4 batches of 0-3 Reassembly elements with empty slices, skips, -1 skip, then completion, scribbling over each batch after its call returns) and a consumer actor reads with seeded buffer sizes (0,1,2,3,7,64,1500) and closes at a seeded point (before any read, between or inside batches, after EOF, twice); the controller picks which side moves; non-trivial = a gap, empty slice/batch or early close fired; distinct = distinct event-log fingerprints among non-trivial runs",
 		RealStub: "real: tcpreader.ReaderStream (Reassembled, ReassemblyComplete, Read, Close, its two channels); stub: assembler side (script) and consumer",
-		Assume: []string{"one consumer goroutine uses the reader (Read and Close are not called concurrently)", "the assembler calls ReassemblyComplete only after its last Reassembled call returned"}}
+		Assume:   []string{"one consumer goroutine uses the reader (Read and Close are not called concurrently)", "the assembler calls ReassemblyComplete only after its last Reassembled call returned"}}
+}
+
+func init() {
+	props["C12"] = PropDef{Level: "exploration", QuickS: 60, ThoroughS: 900,
+		Units: []Unit{
+			{Name: "tcpasm-c12", Pkg: "./props/tcpasm", Sim: "c12t", Share: 0.25},
+			{Name: "reasm-c12", Pkg: "./props/reasm", Sim: "c12r", Share: 0.25},
+		},
+		Rule:     "one evaluation = one run of 2-3 assembler goroutines (plus an optional flusher with its own assembler) on one shared StreamPool under the cooperative scheduler: real goroutines, exactly one running, parked at every API call boundary, every stream callback and in front of every lock acquisition of the package (verif hook), the next runner drawn from the tape (pre-emption rate is a per-run knob); 1-3 short connections whose directions go to different workers (or whose packets are split across workers); the merged per-worker history is checked offline; non-trivial = at least one pre-emption or a concurrent flusher; distinct = distinct event-log fingerprints among non-trivial runs; distinct interleavings = distinct hashes of the (worker, yield site) sequence, reported as distinct_abstract_states",
+		RealStub: "real: tcpassembly / reassembly Assembler and StreamPool under 2-4 goroutines with their real mutexes; stub: packet senders, streams (the history recorder); scheduler: sim/coop",
+		Assume:   append([]string{"interleavings are explored at yield points (API calls, callbacks, lock acquisitions); code between two yield points runs atomically", "a worker released at a lock hook tries the lock first (TryLock/Unlock), so the controller knows who is blocked without rewriting the locks"}, tcpAssume...)}
 }
 
 var probeNames = map[string][]string{
